@@ -4,6 +4,7 @@ mod props;
 mod rng;
 mod runner;
 mod seams;
+mod thr;
 
 use runner::{harness_error, ChildArgs, Tier};
 
@@ -17,6 +18,7 @@ macro_rules! with_check {
             "C05" => { let $c: &'static props::cmdprops::CmdCheck = &props::cmdprops::C05; $body }
             "C06" => { let $c: &'static props::cmdprops::CmdCheck = &props::cmdprops::C06; $body }
             "C07" => { let $c: &'static props::cmdprops::CmdCheck = &props::cmdprops::C07; $body }
+            "C08" => { let $c: &'static thr::ThrCheck = &thr::C08; $body }
             "C09" => { let $c: &'static props::cmdprops::CmdCheck = &props::cmdprops::C09; $body }
             "C13" => { let $c: &'static props::cmdprops::CmdCheck = &props::cmdprops::C13; $body }
             other => harness_error(&format!("unknown check {other}")),
